@@ -655,8 +655,9 @@ def with_queries(plan, names, every=True):
     for i, st in enumerate(plan):
         out.append(st)
         if every or i == len(plan) - 1:
-            out.append({"op": "q", "names": list(names), "alias": i % 2 == 0})
-            out.append({"op": "qs", "names": list(names), "alias": i % 2 == 1})      # skipped while nothing was copied
+            for al in (False, True):         # snake_case methods and their deprecated aliases
+                out.append({"op": "q", "names": list(names), "alias": al})
+                out.append({"op": "qs", "names": list(names), "alias": al})          # skipped while nothing was copied
     return out
 
 
